@@ -98,6 +98,8 @@ type vGhost struct {
 	sps       []byte
 	ppsAtInit []byte
 	tsAUCount int
+	openSize  int    // fMP4, single stream: media payload bytes already written into the open segment
+	maxSize   uint64 // SegmentMaxSize when the size rule is checked (0 = not checked)
 }
 
 func verifTs2Dur(v int64, rate int) time.Duration { return timestampToDuration(v, rate) }
@@ -165,6 +167,7 @@ func (g *vGhost) accept(u *vUnit) (cut bool) {
 		return false
 	}
 	t.emitted = append(t.emitted, vEmitted{u: p, dur: u.dts - p.dts, seg: len(g.segs)})
+	g.openSize += len(p.payload)
 	if t.leading {
 		now := verifTs2Dur(u.dts+off, t.rate)
 		if u.ra && (u.changed || now-g.open.start >= g.segMin) {
@@ -172,6 +175,7 @@ func (g *vGhost) accept(u *vUnit) (cut bool) {
 			g.open.end = now
 			g.segs = append(g.segs, g.open)
 			g.open = &vSeg{start: now, ntp: u.ntp, first: u, forced: u.changed}
+			g.openSize = 0
 		}
 	}
 	return cut
@@ -346,6 +350,11 @@ func verifSetup() *vRun {
 	}
 	if mx := verifParam("SEGMAXSIZE", 0); mx != 0 {
 		r.m.SegmentMaxSize = uint64(mx)
+		if verifParam("SYMMAXSIZE", 0) == 1 {
+			// the size rule of C18 (fMP4, single stream): an arbitrary limit; failing writes are checked, not assumed away
+			r.m.SegmentMaxSize = uint64(verifRangeI64("segmaxsize", 1, int64(mx)))
+			g.maxSize = r.m.SegmentMaxSize
+		}
 	}
 	err := r.m.Start()
 	verifAssert("*", "start-accepts-configuration", err == nil)
@@ -489,7 +498,6 @@ func (r *vRun) writeVideo(ti int) {
 	case 3:
 		err = r.m.WriteAV1(r.tracks[ti], ntp, dts+ptsOff, au)
 	}
-	verifAssume(err == nil)
 	// acceptance rule of the statement: the stream starts at the first random access unit;
 	// fMP4 rejects (silently) units whose shifted DTS is still negative.
 	accepted := true
@@ -505,6 +513,17 @@ func (r *vRun) writeVideo(ti int) {
 			accepted = false
 		}
 	}
+	if g.maxSize != 0 && g.variant != MuxerVariantMPEGTS && accepted && t.held != nil {
+		// this write moves the held-back unit into the open segment: it must fail, instead of buffering, exactly when
+		// that unit's payload would take the segment over SegmentMaxSize
+		if uint64(g.openSize+len(t.held.payload)) > g.maxSize {
+			verifReach("size-limit")
+			verifAssert("C18", "write-exceeding-segmentmaxsize-fails", err != nil)
+			verifStopPath()
+		}
+		verifAssert("C18", "write-within-segmentmaxsize-succeeds", err == nil)
+	}
+	verifAssume(err == nil)
 	cut := false
 	if accepted {
 		cut = g.accept(u)
@@ -1161,6 +1180,17 @@ func (r *vRun) decodeSegment(so *vStreamObs, ord int, body []byte) {
 	verifReach("decode-segment")
 	verifLog("decode ord/parts", ord, len(ps))
 	firstOfLead := true
+	if g.maxSize != 0 {
+		total := 0
+		for _, p := range ps {
+			for _, pt := range p.Tracks {
+				for _, s := range pt.Samples {
+					total += len(s.Payload)
+				}
+			}
+		}
+		verifAssert("C18", "published-segment-within-segmentmaxsize", uint64(total) <= g.maxSize)
+	}
 	for _, p := range ps {
 		for _, pt := range p.Tracks {
 			verifAssert("C01", "fragment-track-id-known", pt.ID >= 1 && pt.ID <= len(so.tracks))
